@@ -230,6 +230,9 @@ func (v *StoreView) Canon() string {
 // transactions take index from the entry, configurations get their committed and applied values from the
 // path-value primitive(s) "configurations-<id>". It is cross-checked against View() regularly.
 func (w *World) fastView() *StoreView {
+	if fastDisabled {
+		return w.View()
+	}
 	maps, imaps := w.atomix.Dump()
 	v := &StoreView{Props: map[configapi.ProposalID]*configapi.Proposal{}, Cfgs: map[configapi.ConfigurationID]*configapi.Configuration{}}
 	for _, e := range imaps["transactions"] {
@@ -261,12 +264,20 @@ func (w *World) fastView() *StoreView {
 				c.Values = map[string]*configapi.PathValue{}
 			}
 			c.Values[path] = pv
-			pv2 := &configapi.PathValue{}
-			_ = pv2.Unmarshal(pb)
+		}
+		appliedName := "configurations-" + string(c.ID) + "-applied"
+		if appliedSharesCommitted {
+			appliedName = "configurations-" + string(c.ID)
+		}
+		for path, pb := range maps[appliedName] {
+			pv := &configapi.PathValue{}
+			if err := pv.Unmarshal(pb); err != nil {
+				panic(err)
+			}
 			if c.Status.Applied.Values == nil {
 				c.Status.Applied.Values = map[string]*configapi.PathValue{}
 			}
-			c.Status.Applied.Values[path] = pv2
+			c.Status.Applied.Values[path] = pv
 		}
 		v.Cfgs[c.ID] = c
 	}
@@ -275,16 +286,25 @@ func (w *World) fastView() *StoreView {
 
 var canonCalls int
 
+// appliedSharesCommitted: how the store under test names the primitive of the applied values (learned by comparing
+// with the stores' own view); fastDisabled: the fast path could not be made to agree and is off.
+var appliedSharesCommitted, fastDisabled bool
+
 // StoreCanon is the canonical text of the store content of the world.
 func (w *World) StoreCanon() string {
-	if w.atomix == nil {
+	if w.atomix == nil || fastDisabled {
 		return w.View().Canon()
 	}
 	fast := w.fastView().Canon()
 	canonCalls++
-	if canonCalls%2003 == 1 {
+	if canonCalls%499 == 1 || canonCalls < 60 {
 		if slow := w.View().Canon(); slow != fast {
-			panic("HARNESS: fastView disagrees with the stores' own view:\n" + fast + "\n---\n" + slow)
+			appliedSharesCommitted = !appliedSharesCommitted
+			if fast = w.fastView().Canon(); slow != fast {
+				fmt.Println("WARNING: the fast store view cannot be made to agree with the stores' own view; using the slow one from now on")
+				fastDisabled = true
+				return slow
+			}
 		}
 	}
 	return fast
